@@ -52,7 +52,7 @@ def mentions_const(e, name):
 
 
 def run(rep, facts):
-    rep.rule("O1", "VarInt::MAX == 2^31-1 and LONG_BIT == 0x80")
+    rep.rule("O1", "VarInt::MAX == 2^31-1 (the long-form bit 0x80 is the specification's constant in the O4 tables, whatever the source calls it)")
     rep.rule("O2", "TryFrom<u32>: Err(InvalidVarInt) exactly on the true edge of v > MAX, else VarInt(v); TryFrom<usize> = u32::try_from then the same")
     rep.rule("O3", "VarInt(..) is constructed only at: const MAX, Default, From<u8>, From<u16>, the guarded TryFrom<u32>, and read() after clearing LONG_BIT")
     rep.rule("O4", "read and write implement the two forms on every path, decided cell by cell (E9): decoder in[0] & LONG_BIT == 0 => VarInt(in[0]) after 1 byte, "
@@ -62,11 +62,15 @@ def run(rep, facts):
 
     # ---- O1 -------------------------------------------------------------------------------------------
     mx = facts.const_int(MAXC)
-    lb = facts.const_int(LONG)
-    if mx == SPEC["varint"]["max"] and lb == SPEC["varint"]["long_bit"]:
-        rep.ok("O1", "constants", "MAX = 2^31-1, LONG_BIT = 0x80")
+    # the private long-form constant, whatever it is called (informational: O4 compares the codec's byte terms with the specification's 0x80
+    # directly, so a wrong constant -- or a wrong literal in its place -- shows there)
+    priv = {k: int(c["v"]) for k, c in facts.consts.items()
+            if k.startswith(V + "::") and k != MAXC and c.get("k") == "int" and c.get("ty", "u8") in ("u8", "u32", "usize")}
+    lbs = [v for v in priv.values()]
+    if mx != SPEC["varint"]["max"]:
+        rep.violation("O1", "constants", "MAX = %d; specification: 2^31-1" % mx)
     else:
-        rep.violation("O1", "constants", "MAX = %d, LONG_BIT = %#x; specification: 2^31-1, 0x80" % (mx, lb))
+        rep.ok("O1", "constants", "MAX = 2^31-1, long-form bit %s" % (", ".join("%s = %#x" % (k.split("::")[-1], v) for k, v in sorted(priv.items())) or "spelled as a literal (decided in O4)"))
 
     # the unwrapping conversion the comparisons may go through is the identity on the wrapped integer
     for ub in facts.by_npath.get(UNWRAP, []):
@@ -194,7 +198,7 @@ def _sv(v):
 def run_codec(rep, facts):
     import cells
     Cn = cells.C
-    lb = facts.const_int(LONG)
+    lb = SPEC["varint"]["long_bit"]
     in0 = ('in', 0)
     # ---- read ------------------------------------------------------------------------------------------------
     b = facts.body("protocol::varint::VarInt::read")
